@@ -86,7 +86,33 @@ func genC15(p *Plan, r *RNG) {
 		ops = append(ops, p.Ops[cut:]...)
 	}
 	p.Ops = ops
-	if r.Chance(1, 2) {
+	if len(td) > 0 && r.Chance(1, 3) {
+		// directed: park the handling of the request right before the teardown so that the
+		// teardown strikes while it is in progress, or park the teardown itself so that the
+		// requests after it arrive while it is in progress (ids are positions + 1)
+		p.Flavor += "+directed"
+		park := r.PickI64([]int64{50 * ms, sec, 5 * sec, 31 * sec})
+		if r.Chance(1, 2) {
+			cls := r.Pick([]string{"cb:Auth", "cb:OnAuth", "cb:AllocatePacketConn", "cb:Quota", "cb:Permission", "lock", "unlock", "rlock", "runlock", "log:*",
+				"cb:OnAllocationCreated", "cb:OnPermissionCreated", "cb:OnChannelCreated", "sock:listener:WriteTo", "sock:relay:WriteTo"})
+			nth := 1
+			if cls == "lock" || cls == "unlock" || cls == "rlock" || cls == "runlock" || cls == "log:*" {
+				nth = r.Range(1, 8)
+			}
+			p.Stalls = append(p.Stalls, Stall{M: Match{Class: cls, Args: "*", Nth: nth}, ParkNS: park, AfterOp: cut})
+			p.Ops[cut].At = gap(r.PickI64([]int64{ms, park / 3, park - 1})) // the teardown, inside the park
+		} else {
+			cls := r.Pick([]string{"cb:OnAllocationDeleted", "cb:OnPermissionDeleted", "cb:OnChannelDeleted", "sock:relay:Close", "lock", "unlock", "log:*"})
+			nth := 1
+			if cls == "lock" || cls == "unlock" || cls == "log:*" {
+				nth = r.Range(1, 8)
+			}
+			p.Stalls = append(p.Stalls, Stall{M: Match{Class: cls, Args: "*", Nth: nth}, ParkNS: park, AfterOp: cut + 1})
+			if cut+len(td) < len(p.Ops) {
+				p.Ops[cut+len(td)].At = gap(r.PickI64([]int64{ms, park / 3}))
+			}
+		}
+	} else if r.Chance(1, 2) {
 		// a slow lifecycle callback at the step of the teardown
 		cls := r.Pick([]string{"cb:OnPermissionCreated", "cb:OnPermissionDeleted", "cb:OnAllocationCreated", "cb:OnAllocationDeleted", "cb:OnChannelCreated", "cb:OnChannelDeleted", "cb:Permission", "cb:Auth"})
 		p.Stalls = append(p.Stalls, Stall{M: Match{Class: cls, Args: "*", Nth: r.Range(1, 4)}, ParkNS: r.PickI64([]int64{1, ms, sec, 31 * sec, 301 * sec, 601 * sec})})
